@@ -1062,7 +1062,7 @@ def import_packages(packages: dict[str, dict[str, str]], v1_shim: set[str], expe
         jobs[pkg] = sorted(mods)
     (root / "jobs.json").write_text(json.dumps({"jobs": jobs, "expect": expect or {}}))
     try:
-        proc = subprocess.run([PY, "-c", IMPORT_SCRIPT, str(root), str(root / "jobs.json")], capture_output=True, text=True, timeout=300)
+        proc = subprocess.run([PY, "-c", IMPORT_SCRIPT, str(root), str(root / "jobs.json")], capture_output=True, text=True, timeout=1200)
         if proc.returncode != 0:
             raise RuntimeError(proc.stderr[-600:])
         return json.loads(proc.stdout)
